@@ -106,7 +106,7 @@ func runC17(rc *RunCtx) {
 		var observers []*lockClient
 		for i := 0; i < nObs; i++ {
 			// observers may spell the lock id with surrounding white space: same lock
-			spelling := []string{lockID, lockID, " " + lockID, lockID + "\n"}[ch.Intn("obsidspelling", 4)]
+			spelling := []string{w.lockID, w.lockID, " " + w.lockID, w.lockID + "\n"}[ch.Intn("obsidspelling", 4)]
 			observers = append(observers, w.addClientWithID(2+i, ch.Intn("obsoverride", 2) == 1, spelling))
 		}
 		if transientAt >= 0 {
